@@ -204,6 +204,54 @@ def c10(tier, seed, case=None):
     return v
 
 
+# --------------------------------------------------------------------------------------- C11
+def c11(tier, seed, case=None):
+    v = _mk('C11', tier, seed, 'fault_enumeration',
+            'one workload = (type, 3..5 shapes, finalize placement in {none, after each write, in the middle, before the first write, '
+            'twice at the end}) run once on instrumented destinations; crash points = EVERY prefix of the .shp op log x EVERY prefix of '
+            'the .shx op log (quick: op granularity for all 13 types, plus byte-level cuts inside every write for 3 types with every 5th '
+            'pair; thorough: byte level for all types with every 2nd pair, 6 extra random workloads per type and placement); readers: '
+            'ShapeReader::new(shp image) and with_shx(shp image, shx image) incl. read_nth_shape for every index. distinct = shp crash '
+            'points (type, placement, variant, ops applied, bytes of the next write applied); all non-trivial',
+            ['only prefixes of the operation sequence are modelled (no reordering of writes by a file system, no torn sectors)'])
+    for prof in _profiles(tier, quick=('checked',), thorough=('checked',)):
+        v.add_run(run_engine('C11', 'c11', prof, tier, seed, case=case))
+    if tier == 'thorough' and not case:
+        v.add_run(run_miri('C11', 'c11', tier, seed))
+    return v
+
+
+# --------------------------------------------------------------------------------------- C12
+def c12(tier, seed, case=None):
+    v = _mk('C12', tier, seed, 'fault_enumeration',
+            'per type and history (quick: W W W F, W F W F, W W then drop, F W F; thorough: all histories of length <= 5 over {W, F} and a '
+            '10-write history), through ShapeWriter and the complete Writer: a fault at EVERY operation index k (write, seek or flush) of '
+            'each destination in turn (shp, shx, dbf), one-shot and persistent, plus two control indices past the end; a failed finalize '
+            'is retried on the healed destination and the final bytes compared with the undisturbed run; short-write schedules (1..8, '
+            '64, PRNG sequences) must give identical bytes. distinct = (type, history, writer, destination, k, mode); all non-trivial',
+            ['injected errors have ErrorKind::Other (Interrupted is legitimately retried by write_all)'])
+    for prof in _profiles(tier):
+        v.add_run(run_engine('C12', 'c12', prof, tier, seed, case=case))
+    if tier == 'thorough' and not case:
+        v.add_run(run_miri('C12', 'c12', tier, seed))
+    return v
+
+
+# --------------------------------------------------------------------------------------- C13
+def c13(tier, seed, case=None):
+    v = _mk('C13', tier, seed, 'fault_enumeration',
+            'per file (13 types x 2 (quick) / 12 (thorough) files of 1..4 records): truncation at EVERY length of the .shp (with the '
+            'intact .shx and without) and of the .shx; a fault at EVERY k-th read/seek of a full traversal (open, iterate to the end, '
+            'read_nth_shape for each i) on each source, one-shot and persistent, attributed to the call in progress by op-log epochs; '
+            'short-read schedules (1..8 bytes, PRNG sequences). distinct = (file, kind, L | k, mode); all non-trivial',
+            ['what an iterator does after its first error is not judged here (C07 bounds it)'])
+    for prof in _profiles(tier):
+        v.add_run(run_engine('C13', 'c13', prof, tier, seed, case=case))
+    if tier == 'thorough' and not case:
+        v.add_run(run_miri('C13', 'c13', tier, seed))
+    return v
+
+
 # --------------------------------------------------------------------------------------- C14
 def c14(tier, seed, case=None):
     import os
@@ -277,4 +325,4 @@ def c19(tier, seed, case=None):
     return v
 
 
-PLANS = {'C09': c09, 'C10': c10, 'C14': c14, 'C03': c03, 'C02': c02, 'C04': c04, 'C01': c01, 'C05': c05, 'C06': c06, 'C16': c16, 'C18': c18, 'C19': c19}
+PLANS = {'C11': c11, 'C12': c12, 'C13': c13, 'C09': c09, 'C10': c10, 'C14': c14, 'C03': c03, 'C02': c02, 'C04': c04, 'C01': c01, 'C05': c05, 'C06': c06, 'C16': c16, 'C18': c18, 'C19': c19}
